@@ -663,6 +663,7 @@ struct ExprSer {
     if (auto* NE = dyn_cast<CXXNewExpr>(E)) {
       o["k"] = "new";
       o["type"] = typeStr(C, NE->getAllocatedType());
+      o["ctype"] = typeStr(C, NE->getAllocatedType().getCanonicalType());
       json::Array pl;
       for (unsigned i = 0; i < NE->getNumPlacementArgs(); ++i)
         pl.push_back(kid(NE->getPlacementArg(i)));
